@@ -25,6 +25,20 @@ pub fn consts(module: &naga::Module) -> Vec<TokenStream> {
                     naga::Literal::AbstractInt(v) => Some(quote!(i64 = #v)),
                     naga::Literal::AbstractFloat(v) => Some(quote!(f64 = #v)),
                 },
+                // Scalar zero value constructors like u32() are not evaluated to literals by naga.
+                naga::Expression::ZeroValue(ty) => match &module.types[*ty].inner {
+                    naga::TypeInner::Scalar(scalar) => match (scalar.kind, scalar.width) {
+                        (naga::ScalarKind::Float, 8) => Some(quote!(f64 = 0f64)),
+                        (naga::ScalarKind::Float, 4) => Some(quote!(f32 = 0f32)),
+                        (naga::ScalarKind::Uint, 4) => Some(quote!(u32 = 0u32)),
+                        (naga::ScalarKind::Sint, 4) => Some(quote!(i32 = 0i32)),
+                        (naga::ScalarKind::Uint, 8) => Some(quote!(u64 = 0u64)),
+                        (naga::ScalarKind::Sint, 8) => Some(quote!(i64 = 0i64)),
+                        (naga::ScalarKind::Bool, _) => Some(quote!(bool = false)),
+                        _ => None,
+                    },
+                    _ => None,
+                },
                 _ => None,
             }?;
 
